@@ -26,6 +26,23 @@ node_weights_setter, node_weights_then_adjacency, set_link_attribute, del_link_a
 undirected_copy, permuted_copy, loaded_then_node_weights, loaded_then_adjacency,
 FromIGraph_then_node_weights, randomly_rewire; Spatial/Geo: adjacency_setter, set_edge_list,
 node_weights_setter, set_node_weight_type).
+
+Persistence block (kinds p_spatial / p_geo / p_climate and the node-attribute paths of the plain
+Network cases): every class of the anchors that offers save / Load (Network, SpatialNetwork,
+GeoNetwork, ClimateNetwork) is written in graphml / graphmlz / pickle / gml together with its
+companion files (Grid pickle, similarity matrix dump; GeoGrid text files), read back with its own
+Load *and* with the Load of every parent class, and compared field by field with the input-only
+oracle; node attributes (set_node_attribute / node_attribute / del_node_attribute) go through the
+same files; GeoNetwork.save_for_cgv is read back with Network.Load.  New check names:
+  save_load[<fmt>]/node_attribute, node_attribute/roundtrip, set_node_attribute/length,
+  mutate_save_load[del_node_attribute]/node_attribute,
+  <Cls>.save_load[<fmt>]/{N,...,node_attribute,grid,type,similarity,rethreshold,files},
+  <Cls>.save><Other>.Load[<fmt>]/..., <Cls>.save[no-grid]/..., <Cls>.save_load[txt-grid]/...,
+  ClimateNetwork.save[<fmt>]/similarity_file, ClimateNetwork.Load/raises,
+  Grid.save_load/grid, GeoGrid.save_load/grid, GeoGrid.save_txt_LoadTXT/grid,
+  GeoGrid.save_txt_LoadTXT/single-time-point, GeoNetwork.save_for_cgv[<fmt>]/...,
+  <Cls>.mutate_save_load[<mutator>]/... (set_threshold, set_non_local, node_weights_setter,
+  set_link_attribute, set_node_attribute, overwrite, loaded_then_node_weights).
 """
 import os
 import sys
@@ -121,7 +138,7 @@ def compare(fails, path, net, exp, attrs, wtol=0.0, skip=()):
     # node weights
     if "node_weights" not in skip:
         w = net.node_weights
-        ok_w = w is not None and _close(w, exp["w"], wtol)
+        ok_w = w is not None and np.asarray(w).dtype.kind in "fiu" and _close(w, exp["w"], wtol)
         if not ok_w:
             bad("node_weights", f"node_weights={None if w is None else np.asarray(w).tolist()} "
                                 f"expected {exp['w'].tolist()}")
@@ -583,7 +600,79 @@ def run_case(case):
         if A.any():
             guarded("mutate_save_load[randomly_rewire]", m_rewire)
 
+        # ---- node attributes (set_node_attribute / node_attribute / del_node_attribute) through
+        #      every file format; own random stream so that the paths above keep their inputs
+        rs2 = np.random.RandomState((int(case.get("rs", 0)) + 7919) % (2 ** 31 - 1))
+        nattrs = rand_node_attrs(rs2, n)
+        for fmt in FORMATS:
+            def f_na(fmt=fmt):
+                a_fmt = {k: v for k, v in attrs.items() if fmt != "gml" or k.isalnum()}
+                na_fmt = {k: v for k, v in nattrs.items() if fmt != "gml" or k.isalnum()}
+                src = with_attrs(Network(adjacency=A, **kw))
+                set_node_attrs(src, nattrs, rs2)
+                check_node_attrs(fails, "node_attribute/roundtrip", "node_attribute/roundtrip",
+                                 src, nattrs, 0.0)
+                with quiet():
+                    src.set_node_attribute("badlen", np.ones(n + 1))
+                if "badlen" in src.graph.vs.attributes():
+                    fails.append(("set_node_attribute/length", "accepted n+1 values"))
+                fn = os.path.join(d, f"na_{fmt}.{fmt}")
+                src.save(fn, fileformat=fmt) if rs2.randint(2) else src.save(fn)
+                net = Network.Load(fn, fileformat=fmt, silence_level=3) if rs2.randint(2) else \
+                    Network.Load(fn, silence_level=3)
+                wtol = 0.0 if fmt == "pickle" else TEXT_RTOL
+                sub = []
+                compare(sub, f"save_load[{fmt}]", net, exp, a_fmt, wtol=wtol)
+                if fmt == "gml":
+                    sub = [x for x in sub if not x[0].endswith(("total_node_weight", "mean_node_weight"))]
+                fails.extend(sub)
+                check_node_attrs(fails, f"save_load[{fmt}]/node_attribute", None, net, na_fmt, wtol)
+                compare(fails, f"save_load[{fmt}](source-after)", src, exp, attrs)
+                check_node_attrs(fails, "node_attribute/roundtrip", None, src, nattrs, 0.0)
+                if fmt != "gml":
+                    # a deleted attribute is not written any more, the others still are
+                    src.del_node_attribute("score")
+                    src.del_node_attribute("never_set")
+                    fn2 = os.path.join(d, f"na2_{fmt}.{fmt}")
+                    src.save(fn2, fileformat=fmt)
+                    net = Network.Load(fn2, fileformat=fmt, silence_level=3)
+                    rest = {k: v for k, v in nattrs.items() if k != "score"}
+                    if "score" in net.graph.vs.attributes() or "score" in src.graph.vs.attributes():
+                        fails.append(("mutate_save_load[del_node_attribute]/node_attribute",
+                                      "deleted node attribute still present"))
+                    check_node_attrs(fails, "mutate_save_load[del_node_attribute]/node_attribute",
+                                     None, net, rest, wtol)
+                    compare(fails, "mutate_save_load[del_node_attribute]", net, exp, attrs, wtol=wtol)
+            guarded(f"save_load[{fmt}]:node_attribute", f_na)
+
     return {"evals": evals, "fails": fails}
+
+
+# ------------------------------------------------------------------ node attributes
+
+def rand_node_attrs(rs, n):
+    """Numeric node attributes (docstring: 'degree or betweenness'): floats over several decades,
+    an integer ranking, and one name containing '_' (not demanded for gml)."""
+    return {"score": (rs.standard_normal(n) * 10 ** rs.uniform(-2, 2)).tolist(),
+            "rank": [int(x) for x in rs.permutation(n)],
+            "my_attr": (rs.randint(-16, 17, size=n) / 8.0).tolist()}
+
+
+def set_node_attrs(net, nattrs, rs):
+    for name, v in nattrs.items():
+        net.set_node_attribute(name, np.asarray(v) if rs.randint(2) else list(v))
+
+
+def check_node_attrs(fails, check, _unused, net, nattrs, tol):
+    for name, v in nattrs.items():
+        try:
+            got = net.node_attribute(name)
+            g = np.asarray(got)
+            if g.dtype.kind not in "fiu" or not _close(g, v, tol):
+                fails.append((check, f"node_attribute({name!r})={g.tolist()!r} ({g.dtype}) "
+                                     f"expected {list(v)!r}"))
+        except Exception as e:   # noqa
+            fails.append((check, f"node_attribute({name!r}) raised {e!r}"))
 
 
 # ------------------------------------------------------------------ spatial / geo cases
@@ -752,9 +841,522 @@ def run_spatial_case(case):
     return {"evals": evals, "fails": fails}
 
 
+# ------------------------------------------------------------------ persistence of the spatial classes
+
+SIM_RTOL = 1e-6        # similarity matrices are held and dumped as float32
+CGV_COS_TOL = 2e-6     # angular distances come from a float32 cosine
+THR_MARGIN = 5e-4      # thresholds keep this distance from every (weighted) similarity value
+
+
+def great_circle(coords):
+    """Angular great-circle distance matrix (radians) of (lat, lon) in degrees; float32 inputs."""
+    lat = np.deg2rad(np.asarray(coords[0], dtype=np.float32).astype(float))
+    lon = np.deg2rad(np.asarray(coords[1], dtype=np.float32).astype(float))
+    c = np.sin(lat)[:, None] * np.sin(lat)[None, :] + \
+        np.cos(lat)[:, None] * np.cos(lat)[None, :] * np.cos(lon[:, None] - lon[None, :])
+    return np.arccos(np.clip(c, -1.0, 1.0))
+
+
+def weighted_similarity(S, non_local, coords):
+    """|S| in float32; with non_local the documented distance weighting
+    0.5 (tanh(a (d - d_min)) + 1), a = 20, d_min = 0.05 rad."""
+    M = np.abs(np.asarray(S, dtype=np.float32)).astype(float)
+    if non_local:
+        M = M * (0.5 * (np.tanh(20.0 * (great_circle(coords) - 0.05)) + 1.0))
+    return M
+
+
+def climate_adjacency(S, thr, non_local, coords):
+    M = weighted_similarity(S, non_local, coords)
+    A = (M > thr).astype(np.int64)
+    np.fill_diagonal(A, 0)
+    return A
+
+
+def run_persist_case(case):
+    """Save -> Load of SpatialNetwork / GeoNetwork / ClimateNetwork with all companion files."""
+    import pickle
+    from pyunicorn.core.network import Network
+    from pyunicorn.core.grid import Grid
+    from pyunicorn.core.geo_grid import GeoGrid
+    from pyunicorn.core.spatial_network import SpatialNetwork
+    from pyunicorn.core.geo_network import GeoNetwork
+    from pyunicorn.climate.climate_network import ClimateNetwork
+    import shutil
+
+    kind = case["kind"]
+    cls = {"p_spatial": "SpatialNetwork", "p_geo": "GeoNetwork", "p_climate": "ClimateNetwork"}[kind]
+    geo = kind != "p_spatial"
+    clim = kind == "p_climate"
+    directed = bool(case["directed"])
+    coords = np.asarray(case["coords"], dtype=float)
+    tseq = np.arange(case.get("T", 3), dtype=float) * case.get("dt", 1.0)
+    nwt = case.get("nwt")
+    w = case.get("w")
+    rs = np.random.RandomState(case.get("rs", 0))
+    if clim:
+        S = np.asarray(case["S"], dtype=float)
+        thr, thr2, nl = float(case["thr"]), float(case["thr2"]), bool(case["non_local"])
+        A = climate_adjacency(S, thr, nl, coords)
+    else:
+        S = thr = thr2 = nl = None
+        A = np.asarray(case["A"], dtype=np.int64)
+    n = A.shape[0]
+    attrs = {k: np.asarray(v, dtype=float) for k, v in (case.get("attrs") or {}).items()}
+    nattrs = case.get("nattrs") or {}
+    fails, evals = [], []
+    gkey = (cls, n, directed, A.tobytes(), coords.tobytes(), None if w is None else tuple(w), nwt,
+            None if not clim else (thr, nl))
+
+    CLS = {"Network": Network, "SpatialNetwork": SpatialNetwork, "GeoNetwork": GeoNetwork,
+           "ClimateNetwork": ClimateNetwork}
+    PARENTS = {"SpatialNetwork": ["Network"], "GeoNetwork": ["SpatialNetwork", "Network"],
+               "ClimateNetwork": ["GeoNetwork", "SpatialNetwork", "Network"]}[cls]
+    grid_cls = GeoGrid if geo else Grid
+
+    def ev(path):
+        evals.append(((path,) + gkey, True))
+
+    def guarded(path, fn):
+        ev(path)
+        try:
+            with quiet():
+                fn()
+        except Exception as e:   # noqa
+            fails.append((f"{path.split(':')[0]}/raises", f"{type(e).__name__}: {e}"))
+
+    def mk_grid():
+        if geo:
+            return GeoGrid(tseq, coords[0], coords[1], silence_level=3)
+        return Grid(tseq, coords, silence_level=3)
+
+    def geo_w(t):
+        c = np.cos(coords[0].astype(np.float32).astype(float) * np.pi / 180)
+        return c if t == "surface" else c ** 2 if t == "irrigation" else np.ones(n)
+
+    def w_of(explicit, t=nwt):
+        """expected weights and their tolerance"""
+        if explicit is not None:
+            return np.asarray(explicit, dtype=float), 0.0
+        if geo:
+            return geo_w(t), GRID_RTOL
+        return np.ones(n), 0.0
+
+    def build(A_=None, thr_=None, nl_=None):
+        if clim:
+            return ClimateNetwork(grid=mk_grid(), similarity_measure=S.copy(),
+                                  threshold=thr if thr_ is None else thr_,
+                                  non_local=nl if nl_ is None else nl_, directed=directed,
+                                  node_weight_type=nwt, silence_level=3)
+        M = A if A_ is None else A_
+        if geo:
+            return GeoNetwork(grid=mk_grid(), adjacency=M, directed=directed,
+                              node_weight_type=nwt, silence_level=3)
+        return SpatialNetwork(grid=mk_grid(), adjacency=M, directed=directed, silence_level=3)
+
+    def dress(net, w_=w, attrs_=None, nattrs_=None):
+        if w_ is not None:
+            net.node_weights = w_
+        for name, L in (attrs if attrs_ is None else attrs_).items():
+            net.set_link_attribute(name, L)
+        set_node_attrs(net, nattrs if nattrs_ is None else nattrs_, rs)
+        return net
+
+    def grid_ok(check, g, want_cls, tol=GRID_RTOL, time_too=True):
+        try:
+            if type(g) is not want_cls:
+                fails.append((check, f"grid type {type(g).__name__} expected {want_cls.__name__}"))
+                return
+            s0, s1 = np.asarray(g.sequence(0)), np.asarray(g.sequence(1))
+            c32 = coords.astype(np.float32).astype(float)
+            t32 = tseq.astype(np.float32).astype(float)
+            if g.N != n or not _close(s0, c32[0], tol) or not _close(s1, c32[1], tol) or \
+                    (time_too and (not _close(g.grid()["time"], t32, tol)
+                                   or g.n_grid_points != n * len(tseq))):
+                fails.append((check, f"grid differs: N={g.N} seq={s0.tolist()},{s1.tolist()} "
+                                     f"time={np.asarray(g.grid()['time']).tolist()} expected "
+                                     f"{coords.tolist()} time={tseq.tolist()}"))
+            if want_cls is GeoGrid and (not _close(g.lat_sequence(), c32[0], tol)
+                                        or not _close(g.lon_sequence(), c32[1], tol)):
+                fails.append((check, "lat_sequence / lon_sequence differ from the input"))
+        except Exception as e:   # noqa
+            fails.append((check, f"raised {e!r}"))
+
+    def prefix(loader):
+        return "" if loader == "Network" else loader + "."
+
+    def check_loaded(path, loader, net, fmt, exp, a_exp, na_exp, wtol, grid=True):
+        """All fields of the property on a loaded object.  gml: attribute names with '_' are not
+        demanded; the loss of the weights keeps the stable name of the loading class."""
+        a_fmt = {k: v for k, v in a_exp.items() if fmt != "gml" or k.isalnum()}
+        na_fmt = {k: v for k, v in na_exp.items() if fmt != "gml" or k.isalnum()}
+        if type(net) is not CLS[loader]:
+            fails.append((f"{path}/type", f"{type(net).__name__} expected {loader}"))
+        sub = []
+        compare(sub, path, net, exp, a_fmt, wtol=wtol)
+        if fmt == "gml":
+            sub = [x for x in sub if not x[0].endswith(("total_node_weight", "mean_node_weight"))]
+            sub = [(f"{prefix(loader)}save_load[gml]/node_weights", x[1])
+                   if x[0].endswith("/node_weights") else x for x in sub]
+        fails.extend(sub)
+        check_node_attrs(fails, f"{path}/node_attribute", None, net, na_fmt,
+                         0.0 if fmt == "pickle" else TEXT_RTOL)
+        if grid and loader != "Network":
+            grid_ok(f"{path}/grid", net.grid, grid_cls)
+        if loader == "ClimateNetwork":
+            S32 = np.abs(S.astype(np.float32)).astype(float)
+            try:
+                got = np.asarray(net.similarity_measure())
+                if not _close(got, S32, SIM_RTOL):
+                    fails.append((f"{path}/similarity", f"similarity_measure()={got.tolist()} "
+                                                        f"expected {S32.tolist()}"))
+            except Exception as e:   # noqa
+                fails.append((f"{path}/similarity", f"raised {e!r}"))
+            # grid and similarity matrix are stored: a climate network generated from the loaded
+            # parts with the original settings is the original network
+            try:
+                for t_, f_ in ((thr, nl), (thr2, nl), (thr2, not nl)):
+                    re = ClimateNetwork(grid=net.grid, similarity_measure=net.similarity_measure(),
+                                        threshold=t_, non_local=f_, directed=net.directed,
+                                        silence_level=3)
+                    want = climate_adjacency(S, t_, f_, coords)
+                    if not np.array_equal(np.asarray(re.adjacency), want):
+                        fails.append((f"{path}/rethreshold",
+                                      f"threshold={t_} non_local={f_}: adjacency="
+                                      f"{np.asarray(re.adjacency).tolist()} expected {want.tolist()}"))
+            except Exception as e:   # noqa
+                fails.append((f"{path}/rethreshold", f"raised {e!r}"))
+
+    tmp = tempfile.mkdtemp(prefix="c05p_")
+    try:
+        counter = [0]
+
+        def files(fmt, grid=True, sim=True):
+            counter[0] += 1
+            base = os.path.join(tmp, f"f{counter[0]}")
+            f = [f"{base}.{fmt}", f"{base}_grid.pkl" if grid else None]
+            if clim:
+                f.append(f"{base}_sim.npy" if sim else None)
+            return tuple(f)
+
+        def load_with(loader, fn, fmt, explicit):
+            kwd = {"fileformat": fmt} if explicit else {}
+            if loader == "Network":
+                return Network.Load(fn[0], silence_level=3, **kwd)
+            if loader == "ClimateNetwork":
+                return ClimateNetwork.Load(tuple(fn), silence_level=3, **kwd)
+            return CLS[loader].Load(tuple(fn[:2]), silence_level=3, **kwd)
+
+        def round_trip(name, src, fmt, exp, a_exp, na_exp, wtol, loaders=None):
+            """save src, load it with its own class (path `name`) and with all parent classes
+            (path `<cls>.save><Loader>.Load[...]`), compare."""
+            explicit = bool(rs.randint(2))
+            fn = files(fmt)
+            src.save(fn, fileformat=fmt) if explicit else src.save(fn)
+            tol = max(wtol, 0.0 if fmt == "pickle" else TEXT_RTOL)
+            own = None
+            for loader in ([cls] + PARENTS if loaders is None else loaders):
+                path = name if loader == cls else \
+                    name.replace(".save_load[", f".save>{loader}.Load[").replace(
+                        ".mutate_save_load[", f".mutate_save>{loader}.Load[")
+                ev(path + ":" + fmt)
+                try:
+                    net = load_with(loader, fn, fmt, bool(rs.randint(2)))
+                except Exception as e:   # noqa
+                    if loader == "ClimateNetwork":
+                        fails.append(("ClimateNetwork.Load/raises", f"[{fmt}] {type(e).__name__}: {e}"))
+                    else:
+                        fails.append((f"{path}/raises", f"{type(e).__name__}: {e}"))
+                    continue
+                check_loaded(path, loader, net, fmt, exp, a_exp, na_exp, tol)
+                if loader == cls:
+                    own = net
+            if clim:
+                # the similarity file on its own (documented as 'the similarity measure matrix')
+                ev(f"ClimateNetwork.save[{fmt}]/similarity_file")
+                try:
+                    M = np.load(fn[2], allow_pickle=True)
+                    S32 = np.abs(S.astype(np.float32)).astype(float)
+                    if not isinstance(M, np.ndarray) or not _close(M, S32, SIM_RTOL):
+                        fails.append((f"ClimateNetwork.save[{fmt}]/similarity_file",
+                                      f"file holds {np.asarray(M).tolist()} expected {S32.tolist()}"))
+                except Exception as e:   # noqa
+                    fails.append((f"ClimateNetwork.save[{fmt}]/similarity_file", f"raised {e!r}"))
+            return own, fn
+
+        w_exp, w_tol = w_of(w)
+        exp = expected(A, directed, w_exp)
+
+        # ---- the object itself (construction from the similarity matrix / adjacency)
+        def p_init():
+            src = dress(build())
+            compare(fails, f"{cls}.init", src, exp, attrs, wtol=w_tol)
+            check_node_attrs(fails, f"{cls}.init/node_attribute", None, src, nattrs, 0.0)
+            grid_ok(f"{cls}.init/grid", src.grid, grid_cls)
+            if clim and (bool(src.non_local()) != nl or float(src.threshold()) != thr):
+                fails.append((f"{cls}.init/settings", f"threshold()={src.threshold()!r} "
+                                                      f"non_local()={src.non_local()!r}"))
+        guarded(f"{cls}.init", p_init)
+
+        # ---- every format: own Load and the Load of every parent class
+        for fmt in FORMATS:
+            def f(fmt=fmt):
+                src = dress(build())
+                round_trip(f"{cls}.save_load[{fmt}]", src, fmt, exp, attrs, nattrs, w_tol)
+                compare(fails, f"{cls}.save_load[{fmt}](source-after)", src, exp, attrs, wtol=w_tol)
+                grid_ok(f"{cls}.save_load[{fmt}](source-after)/grid", src.grid, grid_cls)
+            guarded(f"{cls}.save_load[{fmt}]", f)
+
+        # ---- companion files left out (filename None): nothing else is written, and the network
+        #      file together with a separately saved grid gives the network back
+        def p_nogrid():
+            fmt = FORMATS[rs.randint(3)]
+            src = dress(build())
+            before = set(os.listdir(tmp))
+            fn = files(fmt, grid=False, sim=False)
+            src.save(fn, fileformat=fmt)
+            made = set(os.listdir(tmp)) - before
+            if made != {os.path.basename(fn[0])}:
+                fails.append((f"{cls}.save[no-grid]/files", f"files written: {sorted(made)}"))
+            gfile = fn[0] + "_grid.pkl"
+            mk_grid().save(gfile)
+            for loader in ([cls] + PARENTS):
+                if loader == "ClimateNetwork":
+                    continue        # needs the similarity file that was deliberately not written
+                net = load_with(loader, (fn[0], gfile), fmt, True)
+                check_loaded(f"{cls}.save[no-grid]>{loader}.Load", loader, net, fmt, exp, attrs,
+                             nattrs, max(w_tol, 0.0 if fmt == "pickle" else TEXT_RTOL))
+        guarded(f"{cls}.save[no-grid]", p_nogrid)
+
+        # ---- the grid classes on their own
+        def p_grid():
+            g = mk_grid()
+            fn = os.path.join(tmp, "grid_only.pkl")
+            g.save(fn)
+            name = "GeoGrid" if geo else "Grid"
+            grid_ok(f"{name}.save_load/grid", grid_cls.Load(fn), grid_cls)
+            grid_ok(f"{name}.save_load/grid", Grid.Load(fn), grid_cls)
+            grid_ok(f"{name}.save_load/grid", g, grid_cls)
+        guarded(("GeoGrid" if geo else "Grid") + ".save_load", p_grid)
+
+        if geo:
+            def p_txt():
+                g = mk_grid()
+                base = os.path.join(tmp, "gridtxt")
+                g.save_txt(base)
+                for suffix in ("_lat.txt", "_lon.txt", "_time.txt"):
+                    if not os.path.exists(base + suffix):
+                        fails.append(("GeoGrid.save_txt_LoadTXT/grid", f"no file *{suffix}"))
+                try:
+                    g2 = GeoGrid.LoadTXT(base)
+                except Exception as e:   # noqa
+                    if len(tseq) == 1:
+                        fails.append(("GeoGrid.save_txt_LoadTXT/single-time-point",
+                                      f"grid with one time point: {type(e).__name__}: {e}"))
+                        return
+                    raise
+                # text files hold the float32 values with 18 digits
+                grid_ok("GeoGrid.save_txt_LoadTXT/grid", g2, GeoGrid, tol=1e-6)
+                # network file + text-file grid -> GeoNetwork; its geographical weights follow
+                # from the loaded latitudes
+                fmt = FORMATS[rs.randint(3)]
+                src = dress(build())
+                fn = files(fmt, grid=False, sim=False)
+                src.save(fn, fileformat=fmt)
+                gfile = fn[0] + "_grid.pkl"
+                g2.save(gfile)
+                net = GeoNetwork.Load((fn[0], gfile), fileformat=fmt, silence_level=3)
+                path = f"{cls}.save_load[txt-grid]"
+                check_loaded(path, "GeoNetwork", net, fmt, exp, attrs, nattrs,
+                             max(w_tol, 0.0 if fmt == "pickle" else TEXT_RTOL))
+                for t_ in ("surface", "irrigation", None):
+                    net.set_node_weight_type(t_)
+                    compare(fails, path, net, expected(A, directed, geo_w(t_)), attrs, wtol=GRID_RTOL)
+            guarded("GeoGrid.save_txt_LoadTXT", p_txt)
+
+            # ---- save_for_cgv: coordinates as node attributes, angular distance as link attribute,
+            #      all further node / link properties
+            for cfmt in ("graphml", "graphmlz", "graphviz"):
+                def p_cgv(cfmt=cfmt):
+                    src = dress(build())
+                    fn = os.path.join(tmp, f"cgv_{cfmt}." + ("dot" if cfmt == "graphviz" else cfmt))
+                    src.save_for_cgv(fn, fileformat=cfmt)
+                    path = f"GeoNetwork.save_for_cgv[{cfmt}]"
+                    compare(fails, path + "(source-after)", src, exp, attrs, wtol=w_tol)
+                    if cfmt == "graphviz":      # igraph cannot read DOT: count the statements
+                        with open(fn) as fh:
+                            txt = fh.read()
+                        arrow = " -> " if directed else " -- "
+                        if txt.count(arrow) != exp["n_links"] or \
+                                (("digraph" in txt.split("{")[0]) != directed):
+                            fails.append((path + "/file", f"{txt.count(arrow)} links in DOT file, "
+                                                          f"expected {exp['n_links']}"))
+                        return
+                    net = Network.Load(fn, fileformat=cfmt, silence_level=3)
+                    c32 = coords.astype(np.float32).astype(float)
+                    na = dict(nattrs, lat=c32[0], lon=c32[1])
+                    sub = []
+                    compare(sub, path, net, exp, attrs, wtol=TEXT_RTOL, skip=("node_weights",))
+                    fails.extend(sub)
+                    check_node_attrs(fails, path + "/node_attribute", None, net, na, 1e-6)
+                    try:
+                        got = np.asarray(net.link_attribute("ang_dist"), dtype=float)
+                        want = great_circle(coords)
+                        m = exp["A"] > 0
+                        if got.shape != want.shape or (got[~m] != 0).any() or \
+                                not np.all(np.abs(np.cos(got[m]) - np.cos(want[m])) <= CGV_COS_TOL):
+                            fails.append((path + "/ang_dist", f"ang_dist={got.tolist()} expected "
+                                                              f"{(want * m).tolist()}"))
+                    except Exception as e:   # noqa
+                        fails.append((path + "/ang_dist", f"raised {e!r}"))
+                guarded(f"GeoNetwork.save_for_cgv[{cfmt}]", p_cgv)
+
+        # ---- mutate, then save
+        mf = [int(rs.randint(3))]
+
+        def next_fmt():
+            mf[0] += 1
+            return ("graphml", "graphmlz", "pickle")[mf[0] % 3]
+
+        w_alt = (rs.randint(1, 33, size=n) / 8.0)
+
+        def m_weights():
+            src = dress(build())
+            first, fn = round_trip(f"{cls}.mutate_save_load[node_weights_setter]", src, next_fmt(),
+                                   exp, attrs, nattrs, w_tol, loaders=[cls])
+            src.node_weights = w_alt
+            round_trip(f"{cls}.mutate_save_load[node_weights_setter]", src, next_fmt(),
+                       expected(A, directed, w_alt), attrs, nattrs, 0.0)
+            src.node_weights = None
+            round_trip(f"{cls}.mutate_save_load[node_weights_setter]", src, next_fmt(),
+                       expected(A, directed, None), attrs, nattrs, 0.0, loaders=[cls])
+            if geo:
+                for t_ in ("irrigation", None, "surface"):
+                    src.set_node_weight_type(t_)
+                    round_trip(f"{cls}.mutate_save_load[set_node_weight_type]", src, next_fmt(),
+                               expected(A, directed, geo_w(t_)), attrs, nattrs, GRID_RTOL,
+                               loaders=[cls])
+        guarded(f"{cls}.mutate_save_load[node_weights_setter]", m_weights)
+
+        def m_attrs():
+            src = dress(build())
+            fmt = next_fmt()
+            round_trip(f"{cls}.mutate_save_load[set_link_attribute]", src, fmt, exp, attrs, nattrs,
+                       w_tol, loaders=[cls])
+            new = {k: 3.0 * v - 0.5 for k, v in attrs.items()}
+            new["extra"] = np.asarray(rand_attr(rs, n, directed, True), dtype=float)
+            for name, L in new.items():
+                src.set_link_attribute(name, L)
+            nnew = dict(nattrs)
+            nnew["score"] = [2.0 * x + 1.0 for x in nattrs.get("score", [0.0] * n)]
+            nnew["added"] = (rs.randint(0, 9, size=n) / 2.0).tolist()
+            set_node_attrs(src, nnew, rs)
+            round_trip(f"{cls}.mutate_save_load[set_link_attribute]", src, next_fmt(), exp, new, {},
+                       w_tol, loaders=[cls])
+            round_trip(f"{cls}.mutate_save_load[set_node_attribute]", src, next_fmt(), exp, {}, nnew,
+                       w_tol, loaders=[cls, "Network"])
+            src.del_link_attribute("extra")
+            src.del_node_attribute("added")
+            got, _ = round_trip(f"{cls}.mutate_save_load[del_link_attribute]", src, next_fmt(), exp,
+                                {k: v for k, v in new.items() if k != "extra"},
+                                {k: v for k, v in nnew.items() if k != "added"}, w_tol, loaders=[cls])
+            if got is not None and (got.find_link_attribute("extra")
+                                    or "added" in got.graph.vs.attributes()):
+                fails.append((f"{cls}.mutate_save_load[del_link_attribute]/link_attribute",
+                              "deleted attribute still present after Load"))
+        guarded(f"{cls}.mutate_save_load[set_link_attribute]", m_attrs)
+
+        def m_overwrite():
+            # the same file names are written twice: the files hold the later state
+            fmt = next_fmt()
+            src = dress(build())
+            fn = files(fmt)
+            src.save(fn, fileformat=fmt)
+            src.node_weights = w_alt
+            src.save(fn, fileformat=fmt)
+            for loader in ([cls] + PARENTS[:1]):
+                path = f"{cls}.mutate_save_load[overwrite]" if loader == cls else \
+                    f"{cls}.mutate_save>{loader}.Load[overwrite]"
+                try:
+                    net = load_with(loader, fn, fmt, True)
+                except Exception as e:   # noqa
+                    if loader == "ClimateNetwork":
+                        fails.append(("ClimateNetwork.Load/raises", f"[{fmt}] {type(e).__name__}: {e}"))
+                        continue
+                    raise
+                check_loaded(path, loader, net, fmt, expected(A, directed, w_alt), attrs, nattrs,
+                             0.0 if fmt == "pickle" else TEXT_RTOL)
+        guarded(f"{cls}.mutate_save_load[overwrite]", m_overwrite)
+
+        if not clim:
+            def m_topology():
+                other = 1 - A
+                np.fill_diagonal(other, 0)
+                if not directed:
+                    other = np.triu(other, 1)
+                    other = other + other.T
+                src = build(A_=other)
+                src.adjacency = A if rs.randint(2) else sp.csr_matrix(A)
+                dress(src, w_=w_alt)
+                round_trip(f"{cls}.mutate_save_load[adjacency_setter]", src, next_fmt(),
+                           expected(A, directed, w_alt), attrs, nattrs, 0.0)
+                src.adjacency = other
+                src.set_edge_list(_edge_rows(A, directed, rs), n)
+                dress(src, w_=None)
+                round_trip(f"{cls}.mutate_save_load[set_edge_list]", src, next_fmt(),
+                           expected(A, directed, w_alt), attrs, nattrs, 0.0, loaders=[cls])
+            guarded(f"{cls}.mutate_save_load[adjacency_setter]", m_topology)
+        else:
+            def m_threshold():
+                # another threshold / non_local setting first, the case's settings afterwards
+                src = build(thr_=thr2, nl_=not nl)
+                compare(fails, f"{cls}.init", src,
+                        expected(climate_adjacency(S, thr2, not nl, coords), directed, geo_w(nwt)), {},
+                        wtol=GRID_RTOL)
+                src.set_non_local(nl)
+                src.set_threshold(thr)
+                dress(src)
+                if bool(src.non_local()) != nl or float(src.threshold()) != thr:
+                    fails.append((f"{cls}.mutate_save_load[set_threshold]/settings",
+                                  f"threshold()={src.threshold()!r} non_local()={src.non_local()!r}"))
+                compare(fails, f"{cls}.mutate_save_load[set_threshold](object)", src, exp, attrs,
+                        wtol=w_tol)
+                round_trip(f"{cls}.mutate_save_load[set_threshold]", src, next_fmt(), exp, attrs,
+                           nattrs, w_tol)
+                # toggle the suppression of local links on the live object and save again
+                src.set_non_local(not nl)
+                B = climate_adjacency(S, thr, not nl, coords) if case.get("thr_safe_both") else None
+                if B is not None:
+                    dress(src, attrs_={})
+                    round_trip(f"{cls}.mutate_save_load[set_non_local]", src, next_fmt(),
+                               expected(B, directed, w_exp), {}, nattrs, w_tol)
+            guarded(f"{cls}.mutate_save_load[set_threshold]", m_threshold)
+
+            def m_loaded():
+                # only reachable when ClimateNetwork.Load works: a loaded object is mutated and saved
+                src = dress(build())
+                fmt = next_fmt()
+                fn = files(fmt)
+                src.save(fn, fileformat=fmt)
+                try:
+                    mid = ClimateNetwork.Load(fn, fileformat=fmt, silence_level=3)
+                except Exception as e:   # noqa
+                    fails.append(("ClimateNetwork.Load/raises", f"[{fmt}] {type(e).__name__}: {e}"))
+                    return
+                mid.node_weights = w_alt
+                round_trip(f"{cls}.mutate_save_load[loaded_then_node_weights]", mid, next_fmt(),
+                           expected(A, directed, w_alt), attrs, nattrs, TEXT_RTOL)
+            guarded(f"{cls}.mutate_save_load[loaded_then_node_weights]", m_loaded)
+    finally:
+        shutil.rmtree(tmp, ignore_errors=True)
+    return {"evals": evals, "fails": fails}
+
+
 def run_any(case):
     if case.get("kind", "network") == "network":
         return run_case(case)
+    if case["kind"].startswith("p_"):
+        return run_persist_case(case)
     return run_spatial_case(case)
 
 
@@ -864,6 +1466,142 @@ def make_cases(tier, seed):
                       "attrs": {"lw": rand_attr(rs, n, directed, True)} if i % 2 == 0 else
                                {"link_weights": rand_attr(rs, n, directed, False)},
                       "rs": int(rs.randint(2 ** 31 - 1))})
+    cases.extend(make_persist_cases(tier, seed))
+    return cases
+
+
+def rand_coords(rs, n, geo):
+    """Irregular (non-gridded) positions; geo: clusters a few degrees apart next to far-away
+    stations, pairwise separation > 0.02 rad so that float32 angular distances are well defined."""
+    if not geo:
+        return np.round(rs.uniform(-10, 10, (2, n)) * 10 ** rs.randint(-1, 3), 3)
+    while True:
+        lat, lon = [], []
+        for i in range(n):
+            if i == 0 or rs.randint(2):
+                lat.append(rs.uniform(-85, 85))
+                lon.append(rs.uniform(-180, 180))
+            else:
+                j = rs.randint(i)
+                la = float(np.clip(lat[j] + rs.uniform(-6, 6), -88, 88))
+                lo = lon[j] + rs.uniform(-6, 6) / max(np.cos(np.deg2rad(la)), 0.2)
+                lat.append(la)
+                lon.append(float((lo + 180) % 360 - 180))
+        c = np.round(np.array([lat, lon]), 3)
+        d = great_circle(c) + 10 * np.eye(n)
+        if n == 1 or d.min() > 0.02:
+            return c
+
+
+def climate_case(rs, n, directed, mode, nl):
+    """Similarity matrix with signs (the class keeps |S| as float32), thresholds that stay
+    THR_MARGIN away from every similarity value (plain and distance weighted)."""
+    off = ~np.eye(n, dtype=bool)
+    for _ in range(200):
+        coords = rand_coords(rs, n, True)
+        S = np.round(rs.uniform(-1, 1, (n, n)), 3)
+        if not directed:
+            S = np.triu(S, 1)
+            S = S + S.T
+        np.fill_diagonal(S, 1.0)
+        Ms = [weighted_similarity(S, f, coords) for f in (False, True)]
+
+        def safe(t, M):
+            return n == 1 or float(np.min(np.abs(M[off] - t))) >= THR_MARGIN
+        own = Ms[1] if nl else Ms[0]
+        vals = np.unique(own[off]) if n > 1 else np.array([0.5])
+        if mode == "edgeless":
+            thr = float(vals[-1]) + 0.05
+        elif mode == "full":
+            thr = float(vals[0]) - 0.05
+        elif mode == "single":
+            if len(vals) < 2:
+                thr = float(vals[-1]) - 0.05
+            elif vals[-1] - vals[-2] < 4 * THR_MARGIN:
+                continue
+            else:
+                thr = float(vals[-1] + vals[-2]) / 2
+        else:
+            thr = None
+            for _ in range(100):
+                t = float(rs.uniform(vals[0] - 0.05, vals[-1] + 0.05))
+                if safe(t, own):
+                    thr = round(t, 4) if safe(round(t, 4), own) else t
+                    break
+            if thr is None:
+                continue
+        thr2 = None
+        for _ in range(200):
+            t = round(float(rs.uniform(0.05, 0.95)), 4)
+            if safe(t, Ms[0]) and safe(t, Ms[1]) and abs(t - thr) > 0.02:
+                thr2 = t
+                break
+        if thr2 is None:
+            continue
+        return {"S": S.tolist(), "coords": coords.tolist(), "thr": thr, "thr2": thr2,
+                "non_local": bool(nl), "thr_safe_both": bool(safe(thr, Ms[0]) and safe(thr, Ms[1]))}
+    raise RuntimeError("harness: no safe threshold found")
+
+
+def make_persist_cases(tier, seed):
+    rs = np.random.RandomState(((seed + 1) * 100003) % (2 ** 31 - 1))
+    quick = tier == "quick"
+    cases = []
+    nmax = 8 if quick else 14
+
+    def common(i, n, directed, geo):
+        return {"directed": directed, "T": int(rs.randint(2, 6)),
+                "dt": [1.0, 0.25, 365.25][i % 3],
+                "w": None if i % 3 else ((rs.randint(0, 33, size=n) / 8.0).tolist() if i % 2 else
+                                         (rs.random_sample(n) * 10 ** rs.uniform(-3, 3)).tolist()),
+                "nwt": [None, "surface", "irrigation"][i % 3] if geo else None,
+                "attrs": {"lw": rand_attr(rs, n, directed, True),
+                          "link_weights": rand_attr(rs, n, directed, False)},
+                "nattrs": rand_node_attrs(rs, n),
+                "rs": int(rs.randint(2 ** 31 - 1))}
+
+    def shaped(i, n, directed):
+        """edgeless / single link / isolated nodes / complete / random"""
+        m = i % 5
+        if m == 0:
+            A = np.zeros((n, n), dtype=np.int8)
+        elif m == 1:
+            A = np.zeros((n, n), dtype=np.int8)
+            if n > 1:
+                a, b = rs.choice(n, 2, replace=False)
+                A[a, b] = 1
+                A[b, a] = 0 if directed else 1
+        elif m == 2:
+            A = random_graph(rs, n, 0.5, directed)
+            iso = rs.choice(n, size=max(1, n // 3), replace=False).tolist() + [n - 1]
+            A[iso, :] = 0
+            A[:, iso] = 0
+        elif m == 3:
+            A = random_graph(rs, n, 1.0, directed)
+        else:
+            A = random_graph(rs, n, [0.2, 0.5, 0.8][rs.randint(3)], directed)
+        return A
+
+    for kind, count in (("p_spatial", 10 if quick else 60), ("p_geo", 12 if quick else 60)):
+        geo = kind == "p_geo"
+        for i in range(count):
+            n = 1 if i == 5 else int(rs.randint(2, nmax + 1))
+            directed = bool(i % 4 >= 2)
+            c = {"kind": kind, "A": shaped(i, n, directed).tolist(),
+                 "coords": rand_coords(rs, n, geo).tolist()}
+            c.update(common(i, n, directed, geo))
+            if geo and i in (3, 8):
+                c["T"] = 1          # GeoGrid text files with a single time point
+            cases.append(c)
+    for i in range(16 if quick else 80):
+        n = 1 if i == 9 else int(rs.randint(2, nmax + 1))
+        directed = bool(i % 4 >= 2)
+        mode = ["random", "edgeless", "single", "random", "full", "random"][i % 6]
+        c = {"kind": "p_climate"}
+        c.update(climate_case(rs, n, directed, mode, nl=bool(i % 2)))
+        c.update(common(i, n, directed, True))
+        c["A"] = climate_adjacency(c["S"], c["thr"], c["non_local"], c["coords"]).tolist()
+        cases.append(c)
     return cases
 
 
